@@ -2,7 +2,7 @@
 open Model
 open Util
 
-let names_tbl = [| "dflt"; "reno"; "renoX"; "cubic_012345678901234567890123456789012345678901234567890123456" |]
+let names_tbl = [| "dflt"; "reno"; "renoX"; "c\xc3\xbcbic012345678901234567890123456789012345678901234567890123456" |]
 let bytes_of_string (s : string) : n list =
   List.init (String.length s) (fun i -> byte_table.(Char.code s.[i]))
 let string_of_bytes (b : n list) : string =
